@@ -165,9 +165,9 @@ WitnessDetail(g, run) ==
               p == PropNamed(g, x.name)
           IN  IF ~ValidPath(g, x.states) THEN {"not_an_in_boundary_execution"}
               ELSE IF ~ValidActs(g, x.states, x.acts) THEN {"actions_do_not_produce_path"}
-              ELSE IF p.kind = "always" /\ Last(x.states) \in Sat(p) THEN {"always_last_state_satisfies"}
-              ELSE IF p.kind = "sometimes" /\ Last(x.states) \notin Sat(p) THEN {"sometimes_last_state_not_satisfying"}
-              ELSE IF p.kind = "eventually" /\ (\E k \in 1..Len(x.states) : x.states[k] \in Sat(p))
+              ELSE IF p.kind = "always" /\ SatAt(p, Last(x.states)) THEN {"always_last_state_satisfies"}
+              ELSE IF p.kind = "sometimes" /\ ~SatAt(p, Last(x.states)) THEN {"sometimes_last_state_not_satisfying"}
+              ELSE IF p.kind = "eventually" /\ (\E k \in 1..Len(x.states) : SatAt(p, x.states[k]))
                    THEN {"eventually_path_meets_condition"}
               ELSE IF p.kind = "eventually" /\ ~ValidWitness(g, p, x.states, sim)
                    THEN {"eventually_path_not_maximal"}
